@@ -2,7 +2,8 @@
    Only statements, `exact lemma`, Print Assumptions. *)
 From stdpp Require Import gmap.
 From Coq Require Import NArith.
-From DS Require Import Model.ValueMap Proofs.ValueMapProofs Model.ValueMapConc Proofs.ValueMapConcProofs.
+From stdpp Require Import sorting.
+From DS Require Import Model.ValueMap Proofs.ValueMapProofs Model.ValueMapConc Proofs.ValueMapConcLin Proofs.ValueMapConcProofs Model.ValueMapScan Proofs.ValueMapScanProofs.
 
 (* For EVERY sequence of Store, Load, LoadOrStore, LoadAndDelete, Delete, Clear, Range and
    Length calls, the results of the transliterated sync.Map clone equal those of an ordinary
@@ -78,10 +79,90 @@ Print Assumptions C12_linearizability_monitor_correct.
    responses is linearizable with respect to an ordinary finite map: there are linearization points between each
    operation's invocation and response such that the map specification, run in that order from the empty map, gives
    every completed operation exactly the response it returned.  (Range / Length / Clear are not in the concurrent model:
-   they are covered by the sequential theorems above and by the monitor below on recorded histories; atomics are taken
-   to be sequentially consistent.) *)
+   Range / Length are a scanner layer on top of this model, see the end of the file; Clear is covered by the sequential
+   theorems above and by the monitor on recorded histories; atomics are taken to be sequentially consistent.) *)
 Theorem C12_linearizable_all_schedules : forall (threads : list (list cop)) (sched : list nat),
   ValueMapConc.linearizable (history_of (run_sched (init_conf threads) sched)).
 Proof. exact valuemap_linearizable. Qed.
 
 Print Assumptions C12_linearizable_all_schedules.
+
+(* ---- Range / Length under concurrency (Model/ValueMapScan.v, Proofs/ValueMapScanProofs.v): a SCANNER thread layered on
+   the interleaving model, step by step as in valuemap.go — atomic load of m.read; if amended: Lock, promote dirty, Unlock;
+   then ONE atomic load of the entry cell PER KEY of the table taken, in key order — interleaved with the point-operation
+   threads of the unchanged model (same shared record, same mutex).
+   The property's sentence "every execution is linearizable" is FALSE for Range and Length (recorded finding
+   concurrent-range-length-not-atomic-snapshot): in the schedule below the map is non-empty at every instant between the
+   scan's invocation and its response, yet Range visits nothing and Length is 0 — the history
+   Store(k1,1) | Range begins, takes the table {k1} | Store(k2,3); LoadAndDelete(k1) | Range loads k1's cell: gone. *)
+Theorem C12_range_length_not_atomic_refuted :
+  exists (threads : list (list cop)) (sched : list who),
+    let tr := strace (sinit threads) sched in
+    let fin := srun (sinit threads) sched in
+    last tr = Some fin /\
+    range_result fin = Some [] /\ length_result fin = Some 0%nat /\
+    (forall x, x ∈ tr -> sc_pc x <> ScIdle -> abs_of (sc_sh x) <> ∅) /\
+    (forall x, x ∈ tr -> sc_pc x <> ScIdle ->
+       (spec_step (abs_of (sc_sh x)) ORange).2 <> RPairs [] /\
+       (spec_step (abs_of (sc_sh x)) OLength).2 <> RLen 0).
+Proof. exact range_not_atomic_snapshot. Qed.
+
+(* What IS guaranteed, for every number of threads and EVERY schedule:
+   every visited pair was the value of its key at the instant the scanner loaded that key's cell (an instant between the
+   scan's invocation and its response) ... *)
+Theorem C12_range_visited_was_present : forall threads ws res k v,
+  range_result (srun (sinit threads) ws) = Some res -> (k, v) ∈ res ->
+  exists x, x ∈ strace (sinit threads) ws /\ sc_active (sc_pc x) = true /\
+            loading k (sc_pc x) /\ abs_of (sc_sh x) !! k = Some v.
+Proof. exact range_visited_was_present. Qed.
+
+(* ... every key is visited at most once, in increasing key order ... *)
+Theorem C12_range_keys_once_in_order : forall threads ws res,
+  range_result (srun (sinit threads) ws) = Some res -> StronglySorted key_lt res /\ NoDup (res.*1).
+Proof. exact range_keys_increasing. Qed.
+
+(* ... a key that is live during the whole scan is visited ... *)
+Theorem C12_range_live_key_visited : forall threads ws res k,
+  range_result (srun (sinit threads) ws) = Some res ->
+  (forall x, x ∈ strace (sinit threads) ws -> sc_active (sc_pc x) = true -> is_Some (abs_of (sc_sh x) !! k)) ->
+  k ∈ res.*1.
+Proof. exact range_live_key_visited. Qed.
+
+(* ... and ONCE QUIESCENT (no point operation in progress) the scan returns exactly the contents, which are those of a
+   sequential order of the completed operations (the second half of the property's concurrency sentence) *)
+Theorem C12_range_quiescent_exact : forall threads pre n res,
+  let x := srun (sinit threads) pre in
+  sc_pc x = ScIdle -> quiescent (sc_c x) ->
+  range_result (srun x (repeat Scan n)) = Some res ->
+  res = sort_pairs (map_to_list (abs_of (sc_sh x))) /\
+  RPairs res = (spec_step (abs_of (sc_sh x)) ORange).2 /\
+  abs_of (sc_sh (srun x (repeat Scan n))) = abs_of (sc_sh x).
+Proof. exact range_quiescent_exact. Qed.
+
+Theorem C12_quiescent_contents_are_linearized : forall threads ws,
+  let x := srun (sinit threads) ws in
+  exists l st, erase l = history_of (sc_c x) /\
+               replay (∅, ∅) l = Some (abs_of (sc_sh x), st) /\
+               (quiescent (sc_c x) -> st = ∅).
+Proof. exact abs_of_is_linearized_contents. Qed.
+
+Theorem C12_length_quiescent_exact : forall threads pre n m,
+  let x := srun (sinit threads) pre in
+  sc_pc x = ScIdle -> quiescent (sc_c x) ->
+  length_result (srun x (repeat Scan n)) = Some m ->
+  m = size (abs_of (sc_sh x)) /\ RLen m = (spec_step (abs_of (sc_sh x)) OLength).2.
+Proof. exact length_quiescent_exact. Qed.
+
+(* the point operations stay linearizable while a scanner runs (its promotion included) *)
+Theorem C12_point_ops_linearizable_with_scan : forall threads ws,
+  ValueMapConc.linearizable (history_of (sc_c (srun (sinit threads) ws))).
+Proof. exact point_ops_linearizable_with_scan. Qed.
+
+Print Assumptions C12_range_length_not_atomic_refuted.
+Print Assumptions C12_range_visited_was_present.
+Print Assumptions C12_range_keys_once_in_order.
+Print Assumptions C12_range_live_key_visited.
+Print Assumptions C12_range_quiescent_exact.
+Print Assumptions C12_quiescent_contents_are_linearized.
+Print Assumptions C12_length_quiescent_exact.
+Print Assumptions C12_point_ops_linearizable_with_scan.
